@@ -38,19 +38,19 @@ TRUSTED = ["tools/checks/validgen.py (schema / history generator)", "tools/vlib/
 def classify(component, what, case):
     law, feat = case.get("law"), set(case.get("features", []))
     if law in ("valdiff-apply", "valdiff-eq") and "implicit-below-keyless-list" in feat:
-        return "F62"
+        return "F177"
     if law == "accepts" and case.get("errors", "").startswith("NoUniq:") and "unique-default-below-case-or-presence" in feat:
-        return "F60"
+        return "F175"
     if law == "accepts" and case.get("errors", "").split(":")[0] in ("NoMand", "NoMin", "NoMandChoice", "NoUniq") and "default-case-nested-in-non-default-case" in feat:
-        return "F66"
+        return "F188"
     if law == "implicit" and "tree-has-nodes-the-rfc-does-not" in feat and "default-case-nested-in-non-default-case" in feat:
-        return "F66"
+        return "F188"
     if law == "accepts" and case.get("errors", "").startswith("Other:") and "userord-default-recreated" in feat:
-        return "F63"
+        return "F178"
     if law in ("valdiff-eq", "valdiff-apply") and ("np-container-given-as-new-instance" in feat or "default-np-container-removed" in feat):
-        return "F64"
+        return "F179"
     if law == "implicit" and "missing-defaults-of-a-case-whose-data-sits-in-a-nested-choice" in feat:
-        return "F65"
+        return "F180"
     return None
 
 
